@@ -27,7 +27,7 @@ ASSUMPTIONS = ["a naive datetime denotes local time (datetime.fromtimestamp / da
 
 # Europe/London and Europe/Lisbon: standard offset 0 (time.timezone == 0) but summer time; Africa/Casablanca: "negative DST"
 ZONES = ["UTC", "America/New_York", "Europe/Berlin", "Asia/Kolkata", "Pacific/Chatham", "Australia/Lord_Howe", "Pacific/Kiritimati", "America/St_Johns",
-         "Europe/London", "Europe/Lisbon", "Africa/Casablanca", "Asia/Tokyo"]
+         "Europe/London", "Europe/Lisbon", "Africa/Casablanca", "Asia/Tokyo", "America/Los_Angeles", "Pacific/Honolulu"]
 OTHER = ["Asia/Tokyo", "America/Los_Angeles", "Europe/London", "Australia/Sydney", "America/Sao_Paulo"]
 
 
@@ -115,9 +115,17 @@ def run_case(desc):
         if not S.reg:
             return {"status": "ok", "counters": {"empty_registry": 1}, "nontrivial": False}
         tr = transitions(zone, rng)
-        style = rng.choice(["dst", "dst", "spread", "subsecond"]) if tr else rng.choice(["spread", "spread", "subsecond"])
+        style = rng.choice(["dst", "dst", "spread", "subsecond", "recent"]) if tr else rng.choice(["spread", "spread", "subsecond", "recent"])
         sub = False
-        if style == "subsecond":
+        if style == "recent":
+            # everything happened within the last day of the REAL clock (fresh_time never in the future): nothing may be measured against
+            # "now" in one representation and against the stored times in another
+            style = kind = "recent"
+            now_ = int(time.time())
+            pool = [now_ - d for d in rng.sample(range(90, rng.choice([3, 8, 14, 22]) * 3600, 31), 40)]
+        if style == "recent":
+            pass
+        elif style == "subsecond":
             # all instants within four seconds, 1/64 s apart (exactly representable, so the order of the instants is beyond doubt): files on fast
             # storage, written one after the other. Half of the time right at a transition.
             sub = True
@@ -154,8 +162,8 @@ def run_case(desc):
             st.dt_of = (lambda tick, rep=rep: represent(tick, rep))
         fresh_epoch = None
         fresh_rep = None
-        if rng.random() < 0.6:
-            fresh_epoch = rng.choice(pool) + (rng.choice([0, 0, 1 / 128, -1 / 128, 0.5]) if sub else rng.choice([0, 0, 1, -1, 1800]))
+        if rng.random() < (0.9 if style == "recent" else 0.6):
+            fresh_epoch = rng.choice(pool) + (rng.choice([0, 0, 1 / 128, -1 / 128, 0.5]) if sub else rng.choice([0, 0, 1, -1, 30] if style == "recent" else [0, 0, 1, -1, 1800]))
             fresh_rep = rand_rep(rng, 0.4)
         out_ids = history.choose_out(rng, S)
         exp = S.expect(out_ids, fresh_epoch)
